@@ -50,6 +50,16 @@ class SmallSet(Sym):
     def iterate(self, ctx):
         return list(self.elems)
 
+    def compare(self, ctx, op, other, reflected):
+        if op in ('==', '!=') and isinstance(other, SmallSet):
+            # elements are pairwise distinct on this path: equal sets have equal sizes and mutual containment
+            if len(self.elems) != len(other.elems):
+                return op == '!='
+            parts = [zbool(other.contains(ctx, x)) for x in self.elems]
+            e = z3.And(*parts) if parts else z3.BoolVal(True)
+            return SBool(e if op == '==' else z3.Not(e))
+        return NotImplemented
+
     def isinstance_(self, ctx, types):
         return (frozenset in types) if self.frozen else (set in types)
 
